@@ -108,3 +108,106 @@ def amc_prefix(bs: Seq(Ballot), n: Int, C: CSet) -> Seq(Ballot):
 @lemma(induct="n")
 def amc_prefix_len(bs: Seq(Ballot), n: Int, C: CSet) -> Bool:
     return implies(n >= 0, len(amc_prefix(bs, n, C)) == n)
+
+
+# ---------------------------------------------------------------- positional scores (score_profile_from_rankings)
+from specs.base import count  # noqa: E402
+
+
+@spec(opaque=True)
+def alloc(sv: Seq(Real), a: Int, size: Int) -> Real:
+    """the points each of `size` candidates tied at places a .. a+size-1 receives: the average of the vector's entries there"""
+    return sum(sv[a:a + size]) / size
+
+
+@spec(opaque=True)
+def pts(r: Seq(CSet), n: Int, sv: Seq(Real), x: Str) -> Real:
+    """the points candidate x receives from the first n positions of ranking r under score vector sv"""
+    return 0 if n <= 0 else pts(r, n - 1, sv, x) + (alloc(sv, count(r, n - 1), len(r[n - 1])) if x in r[n - 1] else 0)
+
+
+@spec
+def wpts(bs: Seq(Ballot), n: Int, sv: Seq(Real), x: Str) -> Real:
+    """sum over the first n ballots of weight x points of x"""
+    return 0 if n <= 0 else wpts(bs, n - 1, sv, x) + (bs[n - 1].weight * pts(bs[n - 1].ranking, len(bs[n - 1].ranking), sv, x)
+                                                      if bs[n - 1].ranking is not None else 0)
+
+
+from specs.base import repl  # noqa: E402
+
+
+@spec
+def padded(sv: Seq(Real), n: Int) -> Seq(Real):
+    """the score vector filled up with zeros to n entries (left as it is when it is already that long)"""
+    return sv + repl(0, n - len(sv)) if len(sv) < n else sv
+
+
+@lemma(induct="n")
+def repl_len(x: Real, n: Int) -> Bool:
+    return implies(n >= 0, len(repl(x, n)) == n)
+
+
+# ---------------------------------------------------------------- well-formed rankings over a candidate set
+@spec
+def npos_listed(r: Seq(CSet), n: Int, C: CSet) -> Bool:
+    """each of the first n positions is non-empty and lists candidates of C only"""
+    return True if n <= 0 else (npos_listed(r, n - 1, C) and len(r[n - 1]) > 0 and r[n - 1] <= C)
+
+
+@spec(opaque=True)
+def rk_ok(r: Opt(Seq(CSet)), C: CSet) -> Bool:
+    """r is a non-empty ranking whose positions are non-empty and list candidates of C only"""
+    return r is not None and len(r) > 0 and npos_listed(r, len(r), C)
+
+
+@spec
+def all_rk_ok(bs: Seq(Ballot), n: Int, C: CSet) -> Bool:
+    return True if n <= 0 else (all_rk_ok(bs, n - 1, C) and rk_ok(bs[n - 1].ranking, C))
+
+
+@lemma(induct="n")
+def all_rk_ok_nth(bs: Seq(Ballot), n: Int, C: CSet, j: Int) -> Bool:
+    return implies(all_rk_ok(bs, n, C) and 0 <= j and j < n, rk_ok(bs[j].ranking, C))
+
+
+@lemma(induct="n")
+def all_rk_ok_app(bs: Seq(Ballot), b: Ballot, n: Int, C: CSet) -> Bool:
+    return implies(0 <= n and n <= len(bs), all_rk_ok(bs + (b,), n, C) == all_rk_ok(bs, n, C))
+
+
+@lemma(induct="n")
+def npos_listed_nth(r: Seq(CSet), n: Int, C: CSet, j: Int) -> Bool:
+    return implies(npos_listed(r, n, C) and 0 <= j and j < n, len(r[j]) > 0 and r[j] <= C)
+
+
+@lemma(induct="n")
+def npos_listed_app(r: Seq(CSet), s: CSet, n: Int, C: CSet) -> Bool:
+    return implies(0 <= n and n <= len(r), npos_listed(r + (s,), n, C) == npos_listed(r, n, C))
+
+
+@lemma(reveal=("rk_ok",), hint=lambda b, C: npos_listed_app(b.ranking, C - union_upto(b.ranking, len(b.ranking)), len(b.ranking), C), unfold=3)
+def amc_ballot_ok(b: Ballot, C: CSet) -> Bool:
+    """completing a well-formed ballot keeps it well-formed"""
+    return implies(rk_ok(b.ranking, C), rk_ok(amc_ballot(b, C).ranking, C))
+
+
+@lemma(induct="n", hint=lambda bs, n, C: amc_prefix_len(bs, n - 1, C) and amc_ballot_ok(bs[n - 1], C)
+       and all_rk_ok_app(amc_prefix(bs, n - 1, C), amc_ballot(bs[n - 1], C), n - 1, C))
+def amc_prefix_ok(bs: Seq(Ballot), n: Int, C: CSet) -> Bool:
+    return implies(0 <= n and n <= len(bs) and all_rk_ok(bs, n, C), all_rk_ok(amc_prefix(bs, n, C), n, C))
+
+
+@lemma(reveal=("alloc",))
+def alloc_unfold(sv: Seq(Real), a: Int, size: Int, slc: Seq(Real)) -> Bool:
+    return implies(slc == sv[a:a + size], alloc(sv, a, size) == sum(slc) / size)
+
+
+@spec
+def wpos(r: Seq(CSet), n: Int, sv: Seq(Real), x: Str, w: Real) -> Real:
+    """what a ballot of weight w adds to x's score over its first n positions (weight multiplied position by position, as the code does)"""
+    return 0 if n <= 0 else wpos(r, n - 1, sv, x, w) + (alloc(sv, count(r, n - 1), len(r[n - 1])) * w if x in r[n - 1] else 0)
+
+
+@lemma(induct="n", reveal=("pts",))
+def wpos_linear(r: Seq(CSet), n: Int, sv: Seq(Real), x: Str, w: Real) -> Bool:
+    return wpos(r, n, sv, x, w) == w * pts(r, n, sv, x)
